@@ -341,6 +341,8 @@ where
     // If the value increased, then the initial guess must have been low.
     // Repeat until we reverse course.
     while x < xn {
+        #[cfg(num_bigint_verif)]
+        crate::__verif::hit(crate::__verif::FIXPOINT_UP);
         // Sometimes an increase will go way too far, especially with large
         // powers, and then take a long time to walk back.  We know an upper
         // bound based on bit size, so saturate on that.
@@ -354,6 +356,8 @@ where
 
     // Now keep repeating while the estimate is decreasing.
     while x > xn {
+        #[cfg(num_bigint_verif)]
+        crate::__verif::hit(crate::__verif::FIXPOINT_DOWN);
         x = xn;
         xn = f(&x);
     }
@@ -400,10 +404,14 @@ impl Roots for BigUint {
             Some(f) if f.is_finite() => {
                 use num_traits::FromPrimitive;
 
+                #[cfg(num_bigint_verif)]
+                crate::__verif::hit(crate::__verif::GUESS_FLOAT);
                 // We fit in `f64` (lossy), so get a better initial guess from that.
                 BigUint::from_f64((f.ln() / f64::from(n)).exp()).unwrap()
             }
             _ => {
+                #[cfg(num_bigint_verif)]
+                crate::__verif::hit(crate::__verif::GUESS_SCALED);
                 // Try to guess by scaling down such that it does fit in `f64`.
                 // With some (x * 2ⁿᵏ), its nth root ≈ (ⁿ√x * 2ᵏ)
                 let extra_bits = bits - (f64::MAX_EXP as u64 - 1);
@@ -412,6 +420,8 @@ impl Roots for BigUint {
                 if scale < bits && bits - scale > n64 {
                     (self >> scale).nth_root(n) << root_scale
                 } else {
+                    #[cfg(num_bigint_verif)]
+                    crate::__verif::hit(crate::__verif::GUESS_MAX_BITS);
                     BigUint::one() << max_bits
                 }
             }
@@ -419,6 +429,9 @@ impl Roots for BigUint {
 
         #[cfg(not(feature = "std"))]
         let guess = BigUint::one() << max_bits;
+
+        #[cfg(num_bigint_verif)]
+        let guess = crate::__verif::perturb_guess(guess, max_bits);
 
         let n_min_1 = n - 1;
         fixpoint(guess, max_bits, move |s| {
@@ -448,10 +461,14 @@ impl Roots for BigUint {
             Some(f) if f.is_finite() => {
                 use num_traits::FromPrimitive;
 
+                #[cfg(num_bigint_verif)]
+                crate::__verif::hit(crate::__verif::GUESS_FLOAT);
                 // We fit in `f64` (lossy), so get a better initial guess from that.
                 BigUint::from_f64(f.sqrt()).unwrap()
             }
             _ => {
+                #[cfg(num_bigint_verif)]
+                crate::__verif::hit(crate::__verif::GUESS_SCALED);
                 // Try to guess by scaling down such that it does fit in `f64`.
                 // With some (x * 2²ᵏ), its sqrt ≈ (√x * 2ᵏ)
                 let extra_bits = bits - (f64::MAX_EXP as u64 - 1);
@@ -463,6 +480,9 @@ impl Roots for BigUint {
 
         #[cfg(not(feature = "std"))]
         let guess = BigUint::one() << max_bits;
+
+        #[cfg(num_bigint_verif)]
+        let guess = crate::__verif::perturb_guess(guess, max_bits);
 
         fixpoint(guess, max_bits, move |s| {
             let q = self / s;
@@ -489,10 +509,14 @@ impl Roots for BigUint {
             Some(f) if f.is_finite() => {
                 use num_traits::FromPrimitive;
 
+                #[cfg(num_bigint_verif)]
+                crate::__verif::hit(crate::__verif::GUESS_FLOAT);
                 // We fit in `f64` (lossy), so get a better initial guess from that.
                 BigUint::from_f64(f.cbrt()).unwrap()
             }
             _ => {
+                #[cfg(num_bigint_verif)]
+                crate::__verif::hit(crate::__verif::GUESS_SCALED);
                 // Try to guess by scaling down such that it does fit in `f64`.
                 // With some (x * 2³ᵏ), its cbrt ≈ (∛x * 2ᵏ)
                 let extra_bits = bits - (f64::MAX_EXP as u64 - 1);
@@ -504,6 +528,9 @@ impl Roots for BigUint {
 
         #[cfg(not(feature = "std"))]
         let guess = BigUint::one() << max_bits;
+
+        #[cfg(num_bigint_verif)]
+        let guess = crate::__verif::perturb_guess(guess, max_bits);
 
         fixpoint(guess, max_bits, move |s| {
             let q = self / (s * s);
@@ -862,8 +889,12 @@ impl BigUint {
         if let Some(&0) = self.data.last() {
             let len = self.data.iter().rposition(|&d| d != 0).map_or(0, |i| i + 1);
             self.data.truncate(len);
+            #[cfg(num_bigint_verif)]
+            crate::__verif::hit(crate::__verif::NORMALIZE_TRUNCATE);
         }
         if self.data.len() < self.data.capacity() / 4 {
+            #[cfg(num_bigint_verif)]
+            crate::__verif::hit(crate::__verif::NORMALIZE_SHRINK);
             self.data.shrink_to_fit();
         }
     }
